@@ -149,7 +149,13 @@ Checks(o) ==
        LET n == IF e.nrecs <= Len(recs) THEN e.nrecs ELSE Len(recs)
            W(k) == {i \in 1..n : recs[i].key = k}
            Dset == {e.durable[i] : i \in 1..Len(e.durable)}
-           Dur(k) == {i \in W(k) : \E d \in Dset : d.k = k /\ d.ver = recs[i].ver /\ (d.ver > 0 => d.val = recs[i].val)}
+           \* versions can repeat (incr after a delete restarts at 1), so an observed intact record (k, ver, val) may
+           \* match several writes: data files are append-only, so with m intact copies the OLDEST m matching writes
+           \* are the durable ones
+           same(i, j) == recs[i].ver = recs[j].ver /\ (recs[i].ver > 0 => recs[i].val = recs[j].val)
+           copies(k, i) == Cardinality({x \in 1..Len(e.durable) : e.durable[x].k = k /\ e.durable[x].ver = recs[i].ver
+                                       /\ (recs[i].ver > 0 => e.durable[x].val = recs[i].val)})
+           Dur(k) == {i \in W(k) : Cardinality({j \in W(k) : j <= i /\ same(i, j)}) <= copies(k, i)}
            D(k) == MaxOf(Dur(k), 0)
            Allowed(k) == {i \in W(k) : i >= D(k)}
            ok(k, g) == IF g.res = "hit" /\ g.ver > 0
